@@ -13,3 +13,199 @@ package server
 //@ ensures[noerr] result2 == nil
 //@ assigns nothing
 //@ props C05 C04
+
+//@ unit addModifyErrDetailsOrReturn
+//@ requires s != nil && d != nil
+//@ ensures[nil-iff-ok] result0 == nil <==> statusCode(s) == 0
+//@ ensures[code] result0 != nil ==> errCode(result0) == statusCode(s)
+//@ ensures[detail] statusCode(s) != 0 ==> payload(errDetail(result0)) == d
+//@ assigns nothing
+//@ props C09 C04 C05
+
+//@ unit addFlushErrDetailsOrReturn
+//@ requires s != nil && d != nil
+//@ ensures[nil-iff-ok] result0 == nil <==> statusCode(s) == 0
+//@ ensures[code] result0 != nil ==> errCode(result0) == statusCode(s)
+//@ ensures[detail] statusCode(s) != 0 ==> payload(errDetail(result0)) == d
+//@ assigns nothing
+//@ props C08
+
+//@ guarded_by Server.elecMu: curElecID, curMaster
+//@ guarded_by Server.csMu: cs
+
+//@ pred authorised(id *spb.Uint128, e *electionDetails) = id != nil && e != nil && e.master != "" && e.ID != nil
+//@   && e.clientLatest != nil && e.client == e.master
+//@   && u128(id.High, id.Low) == u128(e.clientLatest.High, e.clientLatest.Low)
+//@   && u128(id.High, id.Low) == u128(e.ID.High, e.ID.Low)
+
+//@ pred failedFor(r *spb.ModifyResponse, id uint64) = r != nil && len(r.Result) == 1 && r.Result[0] != nil
+//@   && r.Result[0].Id == id && r.Result[0].Status == spb.AFTResult_FAILED
+//@   && r.ElectionId == nil && r.SessionParamsResult == nil
+
+//@ unit checkElectionForModify
+//@ ensures[ok-authorised] result1 ==> authorised(opElecID, election)
+//@ ensures[complete] authorised(opElecID, election) ==> result1
+//@ ensures[ok-clean] result1 ==> result0 == nil && result2 == nil
+//@ ensures[reject-one] !result1 ==> ((result0 != nil) != (result2 != nil))
+//@ ensures[failed-shape] result0 != nil ==> failedFor(result0, opID)
+//@ ensures[missing-id] opElecID == nil ==> result2 != nil && errCode(result2) == codes.FailedPrecondition
+//@ assigns nothing
+//@ props C04 C09 C12:safety
+
+//@ pred flushReason(e error) = errDetail(e).(*spb.FlushResponseError).Status
+
+//@ pred oneofOK(x Iface) = tagof(x) != 0 ==> payload(x) != 0
+
+//@ unit Server.checkFlushRequest
+//@ requires s != nil
+//@ requires[wire-valid] req != nil ==> oneofOK(req.Election) && oneofOK(req.NetworkInstance)
+//@ ensures[nil-req] req == nil ==> result0 != nil
+//@ ensures[no-ni] req != nil && req.GetNetworkInstance() == nil ==> result0 != nil && errCode(result0) == codes.InvalidArgument
+//@   && (flushReason(result0) == spb.FlushResponseError_UNSPECIFIED_NETWORK_INSTANCE || flushReason(result0) == spb.FlushResponseError_INVALID_NETWORK_INSTANCE)
+//@ ensures[override] req != nil && req.GetNetworkInstance() != nil && req.GetOverride() != nil ==> result0 == nil
+//@ ensures[all-primary-ok] req != nil && req.GetNetworkInstance() != nil && req.GetOverride() == nil && req.GetId() == nil && s.curElecID == nil ==> result0 == nil
+//@ ensures[no-id] req != nil && req.GetNetworkInstance() != nil && req.GetOverride() == nil && req.GetId() == nil && s.curElecID != nil
+//@   ==> result0 != nil && errCode(result0) == codes.FailedPrecondition && flushReason(result0) == spb.FlushResponseError_UNSPECIFIED_ELECTION_BEHAVIOR
+//@ ensures[id-in-all-primary] req != nil && req.GetNetworkInstance() != nil && req.GetOverride() == nil && req.GetId() != nil && s.curElecID == nil
+//@   ==> result0 != nil && errCode(result0) == codes.FailedPrecondition && flushReason(result0) == spb.FlushResponseError_ELECTION_ID_IN_ALL_PRIMARY
+//@ ensures[zero-id] req != nil && req.GetNetworkInstance() != nil && req.GetOverride() == nil && req.GetId() != nil && s.curElecID != nil
+//@   && u128(req.GetId().High, req.GetId().Low) == 0
+//@   ==> result0 != nil && errCode(result0) == codes.InvalidArgument && flushReason(result0) == spb.FlushResponseError_INVALID_ELECTION_ID
+//@ ensures[not-primary] req != nil && req.GetNetworkInstance() != nil && req.GetOverride() == nil && req.GetId() != nil && s.curElecID != nil
+//@   && u128(req.GetId().High, req.GetId().Low) != 0 && u128(req.GetId().High, req.GetId().Low) < u128(s.curElecID.High, s.curElecID.Low)
+//@   ==> result0 != nil && errCode(result0) == codes.FailedPrecondition && flushReason(result0) == spb.FlushResponseError_NOT_PRIMARY
+//@ ensures[primary-ok] req != nil && req.GetNetworkInstance() != nil && req.GetOverride() == nil && req.GetId() != nil && s.curElecID != nil
+//@   && u128(req.GetId().High, req.GetId().Low) != 0 && u128(req.GetId().High, req.GetId().Low) >= u128(s.curElecID.High, s.curElecID.Low)
+//@   ==> result0 == nil
+//@ assigns nothing
+//@ props C08 C11:lock C12:safety
+
+//@ pred modifyReason(e error) = errDetail(e).(*spb.ModifyRPCErrorDetails).Reason
+
+// csWF: the session table holds a non-nil state with non-nil parameters for every session.
+//@ pred csWF(s *Server) = s != nil && s.cs != nil && (forall k in dom(s.cs) :: s.cs[k] != nil && s.cs[k].params != nil)
+
+//@ pred paramsEq(a *clientParams, b *clientParams) = a.Persist == b.Persist && a.FIBAck == b.FIBAck && a.ExpectElecID == b.ExpectElecID
+
+//@ inline clientState.DeepCopy
+//@ inline clientParams.DeepCopy
+//@ inline clientParams.Equal
+
+//@ unit Server.newClient
+//@ requires csWF(s)
+//@ ensures[dup] id in old(dom(s.cs)) ==> result0 != nil && dom(s.cs) == old(dom(s.cs))
+//@ ensures[new] !(id in old(dom(s.cs))) ==> result0 == nil && id in dom(s.cs) && fresh(s.cs[id]) && fresh(s.cs[id].params)
+//@   && !s.cs[id].setParams && s.cs[id].lastElecID == nil
+//@   && !s.cs[id].params.Persist && !s.cs[id].params.ExpectElecID && !s.cs[id].params.FIBAck
+//@ ensures[wf] csWF(s)
+//@ assigns s.cs[id]
+//@ props C09 C11:lock
+
+//@ unit Server.deleteClient
+//@ requires csWF(s)
+//@ ensures[gone] !(id in dom(s.cs))
+//@ ensures[wf] csWF(s)
+//@ assigns s.cs[id]
+//@ props C09 C11:lock
+
+//@ unit Server.getClientState
+//@ requires csWF(s)
+//@ ensures result1 <==> id in dom(s.cs)
+//@ ensures result0 == s.cs[id]
+//@ assigns nothing
+//@ props C04 C09 C11:lock
+
+//@ unit Server.getClientStateCopy
+//@ requires csWF(s)
+//@ ensures[unknown] !(id in dom(s.cs)) ==> result1 != nil && result0 == nil
+//@ ensures[copy] id in dom(s.cs) ==> result1 == nil && result0 != nil && fresh(result0) && result0.params != nil && fresh(result0.params) && paramsEq(result0.params, s.cs[id].params)
+//@ assigns nothing
+//@ props C05 C09 C11:lock
+
+//@ unit Server.storeClientElectionID
+//@ requires csWF(s)
+//@ ensures[found] result0 <==> id in dom(s.cs)
+//@ ensures[stored] result0 ==> s.cs[id].lastElecID == elecID
+//@ assigns s.cs[id].lastElecID
+//@ props C05 C04 C11:lock
+
+//@ unit Server.getElection
+//@ requires s != nil
+//@ ensures result0 != nil && fresh(result0) && result0.master == s.curMaster && result0.ID == s.curElecID && result0.client == "" && result0.clientLatest == nil
+//@ assigns nothing
+//@ props C04 C05 C11:lock
+
+//@ unit Server.setClientParams
+//@ requires csWF(s) && p != nil
+//@ ensures[unknown] !(id in dom(s.cs)) ==> result0 != nil
+//@ ensures[set] id in dom(s.cs) ==> result0 == nil && s.cs[id].params == p
+//@ ensures[wf] csWF(s)
+//@ assigns s.cs[id].params
+//@ props C09 C11:lock
+
+//@ unit Server.checkClientsConsistent
+//@ requires csWF(s)
+//@ ensures[nil] p == nil ==> result1 != nil && !result0
+//@ ensures[exact] p != nil ==> result1 == nil && (result0 <==> (forall k in dom(s.cs) :: k != id ==> paramsEq(s.cs[k].params, p)))
+//@ loop 1 at "range s.cs" invariant forall k in dom(visited) :: k != id && k in dom(s.cs) ==> paramsEq(s.cs[k].params, p)
+//@ loop 1 invariant held(s.csMu) == 1 && p != nil
+//@ assigns nothing
+//@ props C09 C11:lock
+
+// elecVal: the 128-bit value of the server's current election ID (0 when there is none).
+//@ pred elecVal(p *spb.Uint128) = ite(p == nil, 0, u128(p.High, p.Low))
+
+//@ unit Server.runElection
+//@ requires csWF(s) && elecID != nil
+//@ ensures[unknown-client] !(id in dom(s.cs)) ==> result1 != nil
+//@ ensures[not-single-primary] id in dom(s.cs) && !old(s.cs[id].params.ExpectElecID) ==> result1 != nil
+//@   && errCode(result1) == codes.FailedPrecondition && modifyReason(result1) == spb.ModifyRPCErrorDetails_ELECTION_ID_IN_ALL_PRIMARY
+//@ ensures[zero] id in dom(s.cs) && old(s.cs[id].params.ExpectElecID) && u128(elecID.High, elecID.Low) == 0 ==> result1 != nil && errCode(result1) == codes.InvalidArgument
+//@ ensures[accepted] id in dom(s.cs) && old(s.cs[id].params.ExpectElecID) && u128(elecID.High, elecID.Low) != 0 ==> result1 == nil
+//@ ensures[error-no-election-change] result1 != nil ==> s.curElecID == old(s.curElecID) && s.curMaster == old(s.curMaster) && result0 == nil
+//@ ensures[error-no-session-change] result1 != nil ==> s.cs[id].lastElecID == old(s.cs[id].lastElecID)
+//@ ensures[running-max] result1 == nil ==> s.curElecID != nil
+//@   && elecVal(s.curElecID) == ite(u128(elecID.High, elecID.Low) >= old(elecVal(s.curElecID)), u128(elecID.High, elecID.Low), old(elecVal(s.curElecID)))
+//@ ensures[master-highest] result1 == nil && u128(elecID.High, elecID.Low) >= old(elecVal(s.curElecID)) ==> s.curMaster == id && s.curElecID == elecID
+//@ ensures[lower-ignored] result1 == nil && u128(elecID.High, elecID.Low) < old(elecVal(s.curElecID)) ==> s.curMaster == old(s.curMaster) && s.curElecID == old(s.curElecID)
+//@ ensures[reports-max] result1 == nil ==> result0 != nil && result0.ElectionId == s.curElecID && len(result0.Result) == 0 && result0.SessionParamsResult == nil
+//@ ensures[remembers] result1 == nil ==> s.cs[id].lastElecID == elecID
+//@ ensures[wf] csWF(s)
+//@ assigns s.curElecID, s.curMaster, s.cs[id].lastElecID
+//@ props C05 C09 C11:lock
+
+//@ unit Server.updateParams
+//@ requires csWF(s) && params != nil
+//@ ensures[unknown] !(id in dom(s.cs)) ==> result0 != nil
+//@ ensures[twice] id in dom(s.cs) && old(s.cs[id].setParams) ==> result0 != nil && errCode(result0) == codes.FailedPrecondition
+//@   && modifyReason(result0) == spb.ModifyRPCErrorDetails_MODIFY_NOT_ALLOWED
+//@ ensures[reject-no-effect] result0 != nil ==> s.cs[id].params == old(s.cs[id].params) && s.cs[id].setParams == old(s.cs[id].setParams)
+//@ ensures[set] id in dom(s.cs) && !old(s.cs[id].setParams) ==> result0 == nil && s.cs[id].setParams && fresh(s.cs[id].params)
+//@   && (s.cs[id].params.ExpectElecID <==> params.Redundancy == spb.SessionParameters_SINGLE_PRIMARY)
+//@   && (s.cs[id].params.Persist <==> params.Persistence == spb.SessionParameters_PRESERVE)
+//@   && (s.cs[id].params.FIBAck <==> params.AckType == spb.SessionParameters_RIB_AND_FIB_ACK)
+//@ ensures[wf] csWF(s)
+//@ assigns s.cs[id].params, s.cs[id].setParams
+//@ props C09 C11:lock
+
+//@ pred supportedParams(p *spb.SessionParameters) = p.Redundancy == spb.SessionParameters_SINGLE_PRIMARY && p.Persistence == spb.SessionParameters_PRESERVE
+
+//@ pred paramsMatch(a *clientParams, p *spb.SessionParameters) = (a.ExpectElecID <==> p.Redundancy == spb.SessionParameters_SINGLE_PRIMARY)
+//@   && (a.Persist <==> p.Persistence == spb.SessionParameters_PRESERVE) && (a.FIBAck <==> p.AckType == spb.SessionParameters_RIB_AND_FIB_ACK)
+
+//@ unit Server.checkParams
+//@ requires csWF(s)
+//@ ensures[nil] p == nil ==> result1 != nil
+//@ ensures[not-first] p != nil && gotMsg ==> result1 != nil && errCode(result1) == codes.FailedPrecondition && modifyReason(result1) == spb.ModifyRPCErrorDetails_MODIFY_NOT_ALLOWED
+//@ ensures[accepted-only-supported] result1 == nil ==> p != nil && !gotMsg && supportedParams(p)
+//@ ensures[accepted-consistent] result1 == nil ==> (forall k in dom(s.cs) :: k != id ==> paramsMatch(old(s.cs[k].params), p))
+//@ ensures[unsupported] p != nil && !gotMsg && !supportedParams(p) ==> result1 != nil
+//@   && (errCode(result1) == codes.Unimplemented || errCode(result1) == codes.FailedPrecondition) && modifyReason(result1) == spb.ModifyRPCErrorDetails_UNSUPPORTED_PARAMS
+//@ ensures[differ] p != nil && !gotMsg && supportedParams(p) && (exists k in dom(s.cs) :: k != id && !paramsMatch(old(s.cs[k].params), p))
+//@   ==> result1 != nil && errCode(result1) == codes.FailedPrecondition && modifyReason(result1) == spb.ModifyRPCErrorDetails_PARAMS_DIFFER_FROM_OTHER_CLIENTS
+//@ ensures[ok-shape] result1 == nil ==> result0 != nil && result0.SessionParamsResult != nil && result0.SessionParamsResult.Status == spb.SessionParametersResult_OK
+//@   && len(result0.Result) == 0 && result0.ElectionId == nil
+//@ ensures[reject-no-effect] result1 != nil ==> s.cs[id].params == old(s.cs[id].params)
+//@ ensures[wf] csWF(s)
+//@ assigns s.cs[id].params
+//@ props C09 C12:safety
